@@ -62,7 +62,49 @@ def _seeded(prog, rep):
                         "random_state passed on unchanged, so the same seed repeats the same numbers (seed 0 included).")
 
 
+def _repeatable(prog, rep):
+    """'every contour class with a supplied sample ... repeating a deterministic evaluation returns identical results': a contour
+    computed from a SUPPLIED sample (and a grid contour) must not draw random numbers it cannot seed.  marginal_icdf of a
+    conditional variable is a quantile of self.draw_sample(n) without a random_state."""
+    from vstat.terms import builder as _b
+    from vstat.guards import path_conditions as _pcs
+    JM_ = "virocon.jointmodels"
+    # does some marginal_icdf implementation of the package draw without a seed?
+    unseeded = []
+    for q, f in prog.functions.items():
+        if f.name == "marginal_icdf" and f.cls is not None:
+            for n_ in ast.walk(f.node):
+                if isinstance(n_, ast.Call) and isinstance(n_.func, ast.Attribute) and n_.func.attr == "draw_sample" \
+                        and not any(k.arg == "random_state" for k in n_.keywords):
+                    unseeded.append((q, n_.lineno))
+    sites = [("virocon.contours.AndContour._compute", True), ("virocon.contours.OrContour._compute", True), ("virocon.contours.HighestDensityContour._check_grid", False)]
+    for q, has_sample in sites:
+        fn = prog.func(q)
+        rep.analysed(fn)
+        b = _b(prog, fn, inline=False)
+        pcs = _pcs(prog, fn, b)
+        calls = []
+        for st in cfg_of(fn).all_stmts():
+            for n_ in (ast.walk(st) if isinstance(st, (ast.Assign, ast.Expr, ast.Return, ast.AugAssign)) else []):
+                is_mi = isinstance(n_, ast.Call) and isinstance(n_.func, ast.Attribute) and n_.func.attr == "marginal_icdf"
+                if isinstance(n_, ast.Call) and not is_mi:
+                    tc = b.term(n_.func, st)   # the bound method kept in a local name
+                    is_mi = tc[0] == "attr" and tc[2] == "marginal_icdf"
+                if is_mi:
+                    lits = pcs.of(st)
+                    only_without_sample = any(l == ("isnone", ("attr", SELF, "sample")) or l == ("isnone", ("param", "sample")) or (l[0] == "isnone" and "sample" in str(l)) for l in lits)
+                    if not (has_sample and only_without_sample):
+                        calls.append(st)
+        bad = bool(calls) and bool(unseeded)
+        rep.check(not bad, "C19.repeat", f"{q}:marginal_icdf", fn.where(calls[0]) if calls else fn.where(),
+                  "no unseeded Monte-Carlo quantile enters the computation",
+                  f"{'with a supplied sample ' if has_sample else ''}the computation still calls model.marginal_icdf (line(s) {[c.lineno for c in calls]}), which for a conditional variable is a "
+                  f"quantile of self.draw_sample(n) drawn WITHOUT a random_state ({unseeded[:2]}): two computations from the same inputs differ")
+    rep.expect_min("C19.repeat", 3)
+
+
 def run(prog, rep):
+    rep.part(_repeatable, prog, rep)
     rep.explanation = EXPL
     rep.assumptions = ASSUME
     rep.part(_seeded, prog, rep)
